@@ -39,6 +39,16 @@ def check(cfg, name):
             return f"canonical name {name!r} of producible label {L!r} converts to {got!r}"
     if not any(name.lower() == li.name for li in infos) and got is not conv.label_type.UNKNOWN:
         return f"unregistered name {name!r} converts to {got!r}, not UNKNOWN"
+    # the target-list entry point resolves names with the same mapping (alone, and next to other names)
+    from perception_eval.common.label import set_target_lists
+    for names in ([name], ["car" if prefix == "autoware" else "green", name, name.upper()]):
+        try:
+            tl = set_target_lists(names, LabelConverter(task, merge, prefix))
+        except Exception as ex:
+            return f"set_target_lists({names!r}) raised {type(ex).__name__}: {ex}"
+        want_tl = [LabelConverter(task, merge, prefix).convert_label(n).label for n in names]
+        if len(tl) != len(want_tl) or any(a is not b for a, b in zip(tl, want_tl)):
+            return f"set_target_lists({names!r}) gives {tl!r}, objects with these names are labelled {want_tl!r}"
     if merge:
         plain = LabelConverter(task, False, prefix).convert_label(name).label
         want = conv.label_type(MERGE.get(plain.value, plain.value))
